@@ -409,6 +409,7 @@ type loc struct {
 	lo, hi string // element range (for E! arrays); "" = whole inner array / scalar
 	key    string // map / ghost-array key
 	isMap  bool
+	upto   int
 }
 
 func (ex *Exec) assignLocs(env *SpecEnv, con *Contract) (locs []loc) {
@@ -542,7 +543,7 @@ func (ex *Exec) assignLocs(env *SpecEnv, con *Contract) (locs []loc) {
 				if hi == "" {
 					locs = append(locs, loc{heap: h, ref: arrRef})
 				} else {
-					locs = append(locs, loc{heap: h, ref: arrRef, lo: lo, hi: hi})
+					locs = append(locs, loc{heap: h, ref: arrRef, lo: lo, hi: hi, upto: it.Upto})
 				}
 			}
 		case "call":
@@ -604,6 +605,18 @@ func (ex *Exec) havocAssigns(st *State, con *Contract, env *SpecEnv) {
 		case l.lo == "":
 			_, vs, _ := arrayParts(hs)
 			st.hset(l.heap, sx("store", cur, l.ref, st.freshConst("hv", vs)))
+		case l.upto > 0:
+			// quantifier-free: at most l.upto elements starting at lo
+			_, inner, _ := arrayParts(hs)
+			_, es, _ := arrayParts(inner)
+			arr := sx("select", cur, l.ref)
+			for k := 0; k < l.upto; k++ {
+				idx := st.define("hvi", bvSort(64), sx("bvadd", l.lo, bv64(int64(k))))
+				fv := st.freshConst("hvb", es)
+				arr = sx("store", arr, idx, smtIte(sx("bvult", idx, l.hi), fv, sx("select", arr, idx)))
+			}
+			st.assume(sx("bvule", sx("bvsub", l.hi, l.lo), bv64(int64(l.upto))))
+			st.hset(l.heap, sx("store", cur, l.ref, arr))
 		default:
 			_, inner, _ := arrayParts(hs)
 			na := st.freshConst("hv", inner)
